@@ -7,6 +7,7 @@ CONSTANTS MaxVer = 3
           SyncBeforeFlip = TRUE
           PickNewer = TRUE
           SavepointTwoPhase = FALSE
+          RepairSync = TRUE
           SavepointPreFlush = TRUE
 INVARIANTS TypeOK RecoveryOk PrimaryServable AckedDurable
 CHECK_DEADLOCK FALSE
